@@ -6,14 +6,17 @@ ATTACH = ["set_ex", "setex", "expire", "expire_nx", "expire_gt_after", "expire_l
 MODIFY = ["none", "none", "none", "persist", "set_plain", "set_keepttl", "expire_long", "rename", "del", "expire_gt_short", "expire_nx_again",
           "append", "mset", "setnx_fail", "set_nx_fail", "set_xx_keep"]
 PROBES = ["get", "strlen", "append", "incr", "setnx", "set_nx", "set_xx", "set_get", "getrange", "setrange", "exists", "del", "type", "ttl",
-          "persist", "expire", "rename_from", "rename_to", "keys", "mget", "incrby", "decr", "set_keepttl", "mset", "setex"]
+          "persist", "expire", "rename_from", "rename_to", "keys", "mget", "incrby", "decr", "set_keepttl", "mset", "setex",
+          # multi-key commands in which the expiring key comes FIRST and a key without any deadline follows (seeded change C01-del-expired-flag-sticky:
+          # a per-key flag that was not reset made the keys after an expired one uncounted)
+          "del_then_live", "exists_then_live", "mget_then_live", "del_live_between"]
 
 
 def X(argv, keys, full=False):
     return execgen.render([a if isinstance(a, bytes) else a.encode() for a in argv], keys, full)
 
 
-def scenario_setup(rng, k, ttl):
+def scenario_setup(rng, k, ttl, plain=False):
     """returns (lines, expires: bool, final key name)"""
     lines = []
     att = rng.choice(ATTACH)
@@ -37,7 +40,7 @@ def scenario_setup(rng, k, ttl):
         lines += [X(["SET", k, v, "EX", "1000"], [k]), X(["EXPIRE", k, t, "GT"], [k]), X(["EXPIRE", k, t, "LT"], [k])]
     elif att == "expire_xx_after":
         lines += [X(["SET", k, v], [k]), X(["EXPIRE", k, t, "XX"], [k]), X(["EXPIRE", k, "500"], [k]), X(["EXPIRE", k, t, "XX"], [k])]
-    mod = "none" if rng.random() < 0.5 else rng.choice(MODIFY)
+    mod = "none" if (plain or rng.random() < 0.5) else rng.choice(MODIFY)
     k2 = k + b"'"
     keys = [k, k2]
     if mod == "persist":
@@ -66,13 +69,18 @@ def scenario_setup(rng, k, ttl):
         lines.append(X(["SET", k, "n", "NX", "EX", "1000"], keys))
     elif mod == "set_xx_keep":
         lines.append(X(["SET", k, "n", "XX", "KEEPTTL"], keys))
+    lines.append(X(["SET", b"live-" + k, "L"], [b"live-" + k]))     # a companion that never has a deadline
     lines.append(X(["TTL", k], keys))
     lines.append(X(["TTL", k2], keys))
     return lines, keys
 
 
-def probe(rng, k, keys):
-    p = rng.choice(PROBES)
+# (no KEYS here: the KEYS executor reaps every expired key it walks over, after it nothing is "past its deadline and still stored" any more)
+MULTI_PROBES = ["del_then_live", "exists_then_live", "mget_then_live", "del_live_between", "exists", "del", "mget"]
+
+
+def probe(rng, k, keys, only=None):
+    p = rng.choice(only or PROBES)
     k2 = keys[1]
     kk = k if rng.random() < 0.75 else k2
     table = {
@@ -83,19 +91,22 @@ def probe(rng, k, keys):
         "rename_from": ["RENAME", kk, b"other-" + k], "rename_to": ["RENAME", b"nosuch", kk], "keys": ["KEYS", k + b"*"],
         "mget": ["MGET", k, k2], "incrby": ["INCRBY", kk, "5"], "decr": ["DECR", kk], "set_keepttl": ["SET", kk, "s", "KEEPTTL"],
         "mset": ["MSET", kk, "m2"], "setex": ["SETEX", kk, "100", "s"],
+        "del_then_live": ["DEL", k, b"live-" + k], "exists_then_live": ["EXISTS", k, b"live-" + k, k2, b"live-" + k],
+        "mget_then_live": ["MGET", k, b"live-" + k, k2], "del_live_between": ["DEL", k, b"live-" + k, k2, b"nosuch-" + k],
     }
     argv = table[p]
-    return [X(argv, keys + [b"other-" + k]), X(["TTL", kk], keys), X(["GET", kk], keys)]
+    return [X(argv, keys + [b"other-" + k, b"live-" + k]), X(["TTL", kk], keys), X(["GET", kk], keys), X(["EXISTS", b"live-" + k], [b"live-" + k])]
 
 
-def batch(rng, n, extra_setup=None, extra_probe=None):
-    """one batch ≈ 2-3 s of wall clock whatever n"""
-    lines = ["R", "A 820"]
+def batch(rng, n, extra_setup=None, extra_probe=None, only=None, plain=False, attach_ms=820):
+    """one batch ≈ 2-3 s of wall clock whatever n.  only: restrict the probes; plain: no modifier between attaching the deadline and the probe
+    (a small batch of that kind finishes its set-up well inside the attach second, so every probe meets a key that is past its deadline and still stored)"""
+    lines = ["R", "A %d" % attach_ms]
     scen = []
     for i in range(n):
         k = b"t%d" % i
         ttl = 1
-        setup, keys = scenario_setup(rng, k, ttl)
+        setup, keys = scenario_setup(rng, k, ttl, plain=plain)
         if extra_setup and rng.random() < 0.4:
             setup, keys = extra_setup(rng, k, ttl)
         lines += setup
@@ -106,7 +117,7 @@ def batch(rng, n, extra_setup=None, extra_probe=None):
         if extra_probe and rng.random() < 0.4:
             lines += extra_probe(rng, k, keys)
         else:
-            lines += probe(rng, k, keys)
+            lines += probe(rng, k, keys, only)
     lines.append(X(["PING"], [], full=True))
     lines.append("A 980")     # the timers have fired by now: same observations
     for k, keys in scen[: max(1, n // 4)]:
